@@ -4,6 +4,9 @@
 //! char mutation, non-ASCII insertion, grammar garbage.
 #![allow(dead_code)]
 use vh::Rng;
+#[path = "fewitness.rs"]
+pub mod fewitness;
+pub use fewitness::{BMOD, WITNESS_B};
 
 /// every string literal of a Rust source file (ordinary with escapes and line continuations, raw with hashes)
 pub fn rust_string_literals(src: &str) -> Vec<String> {
@@ -138,6 +141,11 @@ pub fn corpus() -> Vec<(String, String)> {
     for (k, s) in OWN.iter().enumerate() {
         v.push((format!("own#{k}"), s.to_string()));
     }
+    // the witness programs of the coverage analysis: attributes, extend / implement for non-types and odd types,
+    // interface constraints and output types, shebang, `()` patterns … (each reaches otherwise unexecuted code)
+    for (name, _, text) in WITNESS_B {
+        v.push((format!("witness#{name}"), text.to_string()));
+    }
     v
 }
 
@@ -145,7 +153,8 @@ pub fn corpus() -> Vec<(String, String)> {
 /// Confirmed front-end crashes whose fixes have all landed (DESIGN §7 fix rows): (id, probe text).  Every
 /// check runs them first, in a child process, as hard regression inputs: a crash is a failing input of the
 /// property, reported with the probe's source.  Nothing is gated.
-pub const GATES: [(&str, &str); 18] = [
+pub const GATES: [(&str, &str); 19] = [
+    ("D86", "type Vec = { x: int, y: int }\nimplement Num for Vec {\n    fn add(a, b) = Vec(a.x + b.x, a.y + b.y)\n    fn subtract(a, b) = Vec(a.x - b.x, a.y - b.y)\n    fn multiply(a, b) = Vec(a.x * b.x, a.y * b.y)\n    fn divide(a, b) = Vec(a.x / b.x, a.y / b.y)\n    fn power(a, b) = Vec(a.x ^ b.x, a.y ^ b.y)\n}\n\nlet v = Vec(10, 20)\nlet w = -v\nprintln(w.x)\n"),
     ("D84", "fn f(b: int = { for i in [1] { }; 2 }) -> int { b }\n"),
     ("D79", "type G = { v: array<int> }\nimplement Index for G {\n  fn index_get(self, index: int) -> int { self.v[index] }\n  fn index_set(self, index: int, val: int) -> void { self.v[index] = val }\n}\nlet g = G([1, 2, 3])\ng[1] += 2\nprintln(g[1])\n"),
     ("D80", "fn f(a: int, b: int = { let t = 3; t + 1 }) -> int { a + b }\nprintln(f(1))\n"),
@@ -592,6 +601,46 @@ pub fn assignment_texts() -> Vec<(String, String)> {
     {
         v.push((format!("assign:odd{k}"), format!("{t}\n")));
     }
+    v
+}
+
+
+/// COMPLETION family: dot completion right behind every kind of receiver text — identifiers with non-ASCII
+/// characters directly in front of them, non-ASCII receivers, string / number / bracket receivers, an `as`
+/// alias (two files: main + `\x1e` + lib1), an interface with output types, a function name, programs with a bare `return` and
+/// with lambda parameter defaults.  Each entry: (label, text, byte offset right behind the `.`, labels the
+/// answer must contain, answer must be empty).
+pub fn completion_texts() -> Vec<(String, String, usize, Vec<&'static str>, bool)> {
+    let mut v: Vec<(String, String, usize, Vec<&'static str>, bool)> = vec![];
+    let mut add = |label: &str, text: String, must: Vec<&'static str>, empty: bool| {
+        let main = text.split('\x1e').next().unwrap_or("");
+        let off = main.rfind('.').map(|i| i + 1).unwrap_or(main.len());
+        v.push((format!("complete:{label}"), text, off, must, empty));
+    };
+    let arr = "let v = [1, 2]\n";
+    // an ASCII identifier directly behind a non-ASCII character (the identifier scan must stop on a char boundary)
+    for (k, pre) in ["é", "世界", "😀", "ß", "\u{301}", "\u{a0}", "日本x", "\"世界\"", "// é", "/* 日 */", "aé", "é_"].iter().enumerate() {
+        add(&format!("nonascii-before-ident{k}"), format!("{arr}{pre}v."), vec![], false);
+        add(&format!("nonascii-receiver{k}"), format!("{arr}{pre}."), vec![], false);
+        add(&format!("nonascii-inside-line{k}"), format!("{arr}let q = {pre}v.\nlet z = 1\n"), vec![], false);
+    }
+    add("array-var", format!("{arr}v."), vec!["len", "push"], false);
+    add("string-var", "let s = \"a\"\ns.".to_string(), vec!["str", "equal"], false);
+    add("int-var", "let n = 1\nn.".to_string(), vec![], false);
+    add("struct-var", "type Pt = { x: int, y: int }\nlet p = Pt(1, 2)\np.".to_string(), vec!["x", "y"], false);
+    add("enum-name", "type Cl = Rd | Gn(int)\nCl.".to_string(), vec!["Rd", "Gn"], false);
+    add("struct-name", "type Pt = { x: int }\nextend Pt {\n  fn m(self) -> int { 1 }\n}\nPt.".to_string(), vec!["m"], false);
+    add("interface-with-output-types", "Iterable.".to_string(), vec!["make_iterator", "IterableItem"], false);
+    add("function-name", "fn foo() -> int { 1 }\nfoo.".to_string(), vec![], true);
+    add("bare-return", format!("fn f() -> void {{ return }}\n{arr}v."), vec!["len"], false);
+    add("lambda-default", format!("let g = (a: int, b: int = a) -> a + b\n{arr}v."), vec!["len"], false);
+    add("task-block", format!("{arr}task {{\n  println(v.len())\n}}\nv."), vec!["len"], false);
+    add("no-receiver", ".".to_string(), vec![], true);
+    add("number-receiver", "1.".to_string(), vec![], false);
+    add("paren-receiver", format!("{arr}(v)."), vec![], true);
+    add("unknown-receiver", "nothere.".to_string(), vec![], true);
+    add("alias", format!("use lib1 as m\nm.\x1e{BMOD}"), vec!["mk", "Pt", "Color"], false);
+    add("alias-then-more", format!("use lib1 as m\nlet p = m.mk()\np.\x1e{BMOD}"), vec![], false);
     v
 }
 
